@@ -18,6 +18,9 @@ Inductive case :=
 | CDump (cap : Z) (hist listing dumped restored : list event)
         (qs : list (list rfilter * list event * list event))
 | CSqlite (maxLimit : Z) (msgs : list cmsg) (replies : list smsg)
+| CBigDump (listing restored : list str) (qs : list (list str * list str))
+    (* a store of a thousand or more events: ids only; judged by the oracle alone
+       (the restored cache must list and answer exactly like the original) *)
 | CBroken.   (* the harness could not run the case: a reply never came, Dump/Restore failed, a panic *)
 
 Definition events_eqb : list event -> list event -> bool := list_eqb event_eqb.
@@ -154,5 +157,9 @@ Definition run_case (c : case) : bool * bool :=
       (dump_model_ok cap hist listing dumped restored qs, dump_restore_ok listing dumped restored qs)
   | CSqlite ml msgs replies =>
       (sqlite_model_ok ml msgs replies, sqlite_session_ok ml msgs replies)
+  | CBigDump listing restored qs =>
+      (true,
+       list_eqb str_eqb listing restored &&
+       forallb (fun q => list_eqb str_eqb (fst q) (snd q)) qs)
   | CBroken => (false, false)
   end.
